@@ -7,8 +7,7 @@
   lifetime errors - stays with `C01.frame_safe` / `history_safe` and the sanitizer runs.
 -/
 import LLTD.Props.C01
-import LLTD.Props.C04T
-import LLTD.Props.C03T
+import LLTD.Lemmas.TranslatedWireEq
 
 namespace LLTD.C01T
 open LLTD LLTD.TWEq
